@@ -27,7 +27,7 @@ RULE = (
     "while each arrives before last-activity+d (absolute: before D); otherwise the fallback is subscribed exactly then (or the "
     "sequence fails then), never after the source terminated; timeout_with_mapper likewise with the first firing (N or C) of "
     "the first-timeout / per-element timeout observable. Non-trivial: some element within one tick of a boundary (for timeout: "
-    "within one tick of a running deadline). In 1 case of 3 the same built observable is subscribed a second time at a generated tick s1 in s0+{0,1,2,3,7}; the same oracle is applied to that probe with its own subscribe tick, and the fallback must be subscribed once per timed-out subscription. Scheduler passing: the take/skip operators and timeout are run in the modes sub (no argument, subscription carries the lab scheduler), arg (scheduler argument, subscription carries none) and arg-other (argument, subscription carries a different never-started virtual scheduler reading +1000 ticks) and must behave identically; one in four timeout observables and fallbacks is a scheduler-less library factory (timer(d), empty(), return_value, never) that must run on the scheduler in force. Any request for the real-time TimeoutScheduler during a run is refused and reported (realtime-fallback), any action left on the decoy scheduler is reported (wrong-scheduler). skip_last_with_time additionally: every produced element appears at the documented instant - the first source element/completion instant at which it is older than d (age exactly d: that instant or the next) - and an element older than d when a later element arrives must have been produced even if the source then fails or never ends. Thorough tier goes deeper for last/timeout: up to 10 elements per timeline, half of them dense (gaps 0-2), durations up to 8 ticks. Distinct = distinct case JSON."
+    "within one tick of a running deadline). In 1 case of 3 the same built observable is subscribed a second time at a generated tick s1 in s0+{0,1,2,3,7}; the same oracle is applied to that probe with its own subscribe tick, and the fallback must be subscribed once per timed-out subscription. Scheduler passing: the take/skip operators and timeout are run in the modes sub (no argument, subscription carries the lab scheduler), arg (scheduler argument, subscription carries none) and arg-other (argument, subscription carries a different never-started virtual scheduler reading +1000 ticks) and must behave identically; one in four timeout observables and fallbacks is a scheduler-less library factory (timer(d), empty(), return_value, never) that must run on the scheduler in force. Any request for the real-time TimeoutScheduler during a run is refused and reported (realtime-fallback), any action left on the decoy scheduler is reported (wrong-scheduler). skip_last_with_time additionally: every produced element appears at the documented instant - the first source element/completion instant at which it is older than d (age exactly d: that instant or the next) - and an element older than d when a later element arrives must have been produced even if the source then fails or never ends. Thorough tier goes deeper for last/timeout: up to 10 elements per timeline, half of them dense (gaps 0-2), durations up to 8 ticks. One timeout_with_mapper case in four uses the overload WITHOUT a per-element mapper (first timeout only): once an element arrived before the first timeout fired no due time exists any more and the source is mirrored. Distinct = distinct case JSON."
 )
 ASSUMPTIONS = [
     "at an exact tie between an operator timer and a source notification either order is accepted (one order per timer and instant)",
@@ -412,14 +412,24 @@ def _run_twm(case):
     lab = mk_lab(case["clock"])
     src = lab.source(case["src"])
     first, tos, other = case.get("first"), case["tos"], case.get("other")
+    nomap = bool(case.get("nomap"))
+    if nomap:
+        # overload without timeout_duration_mapper: after the first element no due time exists any more
+        tos = [{"kind": "cold", "tl": []} for _ in tos]
     oth = mk_trigger(lab, other) if other is not None else None
     fst = mk_trigger(lab, first) if first is not None else None
     ticks = sub_ticks(case)
-    probes = execute_all(lab, src.pipe(ops.timeout_with_mapper(fst, lambda x: mk_trigger(lab, tos[x]), oth)), ticks)
+    mapper = None if nomap else (lambda x: mk_trigger(lab, tos[x]))
+    probes = execute_all(lab, src.pipe(ops.timeout_with_mapper(fst, mapper, oth)), ticks)
     res, wants = [], []
     for p, s0 in zip(probes, ticks):
         eff = effective(case["src"], s0)
         cls = [f"clock:{case['clock']}", f"src:{case['src']['kind']}", "fallback" if other is not None else "no-fallback", "first-timeout" if first is not None else "no-first-timeout"]
+        if nomap:
+            cls.append("overload:no-mapper")
+            ff0 = first_fire(first["tl"]) if first is not None else None
+            if ff0 is not None and any(m[1] == "N" and m[0] < s0 + ff0[0] for m in eff):
+                cls.append("overload:no-mapper:element-before-first-timeout")
         logs = []
 
         def sim(ch, eff=eff, s0=s0, logs=logs):
@@ -520,7 +530,12 @@ def _twm_cases(draw):
     s0, spec = draw(sources(d=2, max_len=5, kinds=("cold", "cold", "sync")))
     tos = [draw(triggers(max_t=4)) for _ in range(nelems(spec))]
     first = draw(triggers(max_t=4)) if draw(st.integers(0, 3)) > 0 else None
-    return {"clock": draw(st.sampled_from(CLOCKS)), "s0": s0, "src": spec, "first": first, "tos": tos, "other": draw(_others()), "s1": second_sub(draw, s0)}
+    c = {"clock": draw(st.sampled_from(CLOCKS)), "s0": s0, "src": spec, "first": first, "tos": tos, "other": draw(_others()), "s1": second_sub(draw, s0)}
+    if draw(st.integers(0, 3)) == 0:
+        c["nomap"] = True
+        if first is None or not first["tl"]:
+            c["first"] = {"kind": "cold", "tl": [[draw(st.sampled_from([1, 2, 3, 4])), "N", "n:7"]]}
+    return c
 
 
 def checks(tier):
